@@ -512,6 +512,7 @@ pub fn c01(ctx: &mut Ctx) {
     }
     run(ctx, bytes::fci_raw_space(), Mode::FciOnly, false);
     run(ctx, bytes::giants_space(), Mode::Giant, false);
+    run(ctx, bytes::giants_runs_space(), Mode::Giant, false);
     run(ctx, bytes::long_chain_space(), Mode::All, false);
     // iterator call histories ("all accessor/iterator call sequences"): every iterator reachable from the base set
     // and from every well-tiled datagram of 1..=3 menu tiles is driven through every sequence of next / nth /
